@@ -1028,6 +1028,28 @@ func c03Workers(r *core.Run, a *svcAnchors, e *lockEngine) {
 		}
 	}
 	r.Check(boundOK && addCall != nil && goInstr != nil && p.DominatesIn(fn, addCall, goInstr), "S4", fname, "wg.Add(n)==n-go-statements", posOf(p, addCall), "WaitGroup.Add(n) precedes a 0..n loop of go worker over the same field "+af.String(), "WaitGroup.Add operand and the number of started workers are not provably the same (Wait would hang or return early)")
+	if aok {
+		c03WorkerCountPositive(r, "S4", af)
+	}
+	// callbacks run on the workers serve started - the goroutines Shutdown waits for - and nowhere
+	// else: the function that accepts a callback starts no goroutine of its own (one that registers
+	// itself with the WaitGroup only once it runs is invisible to a Wait that started before)
+	{
+		nGo := 0
+		for _, h := range p.Helpers(a.Enqueue) {
+			for _, f2 := range withAnon(h) {
+				for _, in := range instrsOf(f2) {
+					if g, ok := in.(*ssa.Go); ok {
+						nGo++
+						r.Bad("S4", core.FuncName(f2), "enqueue-starts-no-goroutine", p.InstrPos(g), "an accepted callback is run on a goroutine started by the submitting function: Shutdown's wait on the worker group does not cover it until it has registered itself, so Shutdown and Serve can return and the callback starts afterwards, on a stopped (or re-started) service")
+					}
+				}
+			}
+		}
+		if nGo == 0 {
+			r.OK("S4", core.FuncName(a.Enqueue), "enqueue-starts-no-goroutine", p.Pos(a.Enqueue.Pos()), "the submitting function only queues: callbacks run on the workers of the run")
+		}
+	}
 
 	w := a.Worker
 	wname := core.FuncName(w)
@@ -1195,4 +1217,89 @@ func c03EnqueueStartedCheck(r *core.Run, rule string, a *svcAnchors, e *lockEngi
 		}
 	}
 	r.Check(guardOK, rule, core.FuncName(a.Enqueue), "started-check-dom-queue-access", posOf(p, firstLock), "submissions are refused unless the service is started", "enqueue touches the queue without a dominating state==started check")
+}
+
+// c03WorkerCountPositive: the number of workers serve starts is at least one:
+// every store to the worker-count member writes a positive constant, or a
+// value on an edge that established it to be positive. With zero workers the
+// service subscribes, announces itself and queues every callback for nobody:
+// no request is answered, no With callback ever runs.
+func c03WorkerCountPositive(r *core.Run, rule string, af core.Field) {
+	p := r.P
+	n := 0
+	for _, ac := range core.FieldAccesses(p.FuncsOfPkg(""), func(f core.Field) bool { return f == af }) {
+		if ac.Kind != "store" {
+			continue
+		}
+		st := ac.Instr.(*ssa.Store)
+		n++
+		bad := ""
+		for _, src := range phiSources(st.Val) {
+			if k, ok := core.ConstInt(src.V); ok {
+				if k < 1 {
+					bad = fmt.Sprintf("the constant %d", k)
+				}
+				continue
+			}
+			positive := false
+			for _, e := range srcEdges(st, src) {
+				cnd, succ := e.Norm()
+				bo, ok := cnd.(*ssa.BinOp)
+				if !ok {
+					continue
+				}
+				x, y, op := bo.X, bo.Y, bo.Op
+				if core.Strip(y) == core.Strip(src.V) {
+					// constant OP value  ->  value OP' constant
+					x, y = y, x
+					switch op {
+					case token.LSS:
+						op = token.GTR
+					case token.GTR:
+						op = token.LSS
+					case token.LEQ:
+						op = token.GEQ
+					case token.GEQ:
+						op = token.LEQ
+					}
+				}
+				k, isK := core.ConstInt(y)
+				if core.Strip(x) != core.Strip(src.V) || !isK {
+					continue
+				}
+				truth := succ == 0
+				switch {
+				case op == token.GTR && truth && k >= 0, // v > 0
+					op == token.GEQ && truth && k >= 1,  // v >= 1
+					op == token.LEQ && !truth && k >= 0, // !(v <= 0)
+					op == token.LSS && !truth && k >= 1: // !(v < 1)
+					positive = true
+				}
+			}
+			if !positive {
+				bad = valDesc(src.V) + " without a test that it is positive"
+			}
+		}
+		r.Check(bad == "", rule, core.FuncName(ac.Fn), "worker-count-stored-positive", p.InstrPos(st), "the worker count is set to a positive constant or to a value tested to be positive", "the worker count can be set to "+bad+": with no worker the service subscribes and announces itself, every request and With callback is queued and none is ever run - no request gets a response")
+	}
+	if n == 0 {
+		r.Bad(rule, af.String(), "worker-count-stored-positive", "-", "the worker count is never set (rule went vacuous)")
+	}
+}
+
+// workerCountField: the member whose value serve hands to WaitGroup.Add before
+// it starts the workers.
+func workerCountField(p *core.Prog, a *svcAnchors) (core.Field, bool) {
+	for _, h := range p.Helpers(a.Serve) {
+		for _, c := range core.Calls(h) {
+			if cal := c.Common().StaticCallee(); cal != nil && cal.String() == "(*sync.WaitGroup).Add" {
+				if f, ok := core.FieldOf(c.Common().Args[0]); ok && f == a.WG {
+					if af, ok := core.LoadedField(c.Common().Args[1]); ok {
+						return af, true
+					}
+				}
+			}
+		}
+	}
+	return core.Field{}, false
 }
